@@ -222,3 +222,18 @@ CONTRACTS.append(Contract(
     opaque=['CIMQualifier'],
     ensures=[('a-CIMQualifier', 'isinstance(result, CIMQualifier)')],
     raises={'CIMXMLParseError': Raises()}))
+
+# ---- further encoder / decoder contracts live in sibling files (same conventions, same shared definitions)
+import importlib.util as _ilu
+import os as _os
+import sys as _sys
+for _extra in ('C01_enc', 'C01_dec'):
+    _path = _os.path.join(_os.path.dirname(_os.path.abspath(__file__)), _extra + '.py')
+    if _os.path.exists(_path):
+        _spec = _ilu.spec_from_file_location('contracts_' + _extra, _path)
+        _mod = _ilu.module_from_spec(_spec)
+        _sys.modules['contracts_' + _extra] = _mod
+        _spec.loader.exec_module(_mod)
+        CONTRACTS.extend(_mod.CONTRACTS)
+        for _k, _v in getattr(_mod, 'CLASS_SPECS', {}).items():
+            CLASS_SPECS.setdefault(_k, {}).update(_v)
